@@ -209,6 +209,8 @@ class Script:
         text = eol.join(texts)
         tag = "t%d" % len(self.lines)
         fl = "t" if (twin and st["ext"]) else "-"
+        if zlib.crc32(("dep:%s:%d" % (self.sid, len(self.lines))).encode()) % 5 == 0:
+            fl = fl.replace("-", "") + "d"      # one call in five goes through the deprecated alias (assemble_str, assemble_string_counting_chunks)
         if count is None:
             self.lines.append("A %d %s %s %s" % (i, fl, tag, hx(text)))
         else:
@@ -228,6 +230,8 @@ class Script:
             fl = "t"
         else:
             fl = "-"
+        if count is None and zlib.crc32(("dep:%s:%d" % (self.sid, len(self.lines))).encode()) % 4 == 0:
+            fl = fl.replace("-", "") + "d"      # assemble_file, the deprecated alias
         tag = "t%d" % len(self.lines)
         if count is None:
             self.lines.append("T %d %s %s %s" % (i, fl, tag, hx(path)))
